@@ -23,7 +23,7 @@ IsCall(c) ==
                 c = Call(x, args, start, end, bs, "tensor", 3, tg[1], tg[2], hyp, FALSE)
 
 Init == pc = "call" /\ IsCall(call) /\ exp = [zone |-> "none"]
-Return == pc = "call" /\ pc' = "ret" /\ exp' = Expected(call) /\ UNCHANGED call
+Return == pc = "call" /\ pc' = "ret" /\ exp' = ISMExpected(call) /\ UNCHANGED call
 Spec == Init /\ [][Return]_vars
 
 Ret == pc = "ret" /\ exp.zone = "accept"
